@@ -4,6 +4,7 @@ CONSTANTS Keys = {1}
           N = 3
           BaseMax = 1
           Workers = {1, 2, 3}
+          SchedMuts = FALSE
           Sched = TRUE
           EmitCases = FALSE
 INVARIANTS HonestAccepted ParallelEqualsSequential WrongBALRejected ScheduleIndependent CacheIsBase WorkerBound HistLegal
